@@ -251,6 +251,17 @@ OBJECTS: Dict[str, Tuple[Sp, str]] = {
     "ann(str0,looser)": (ann(newtype("Ns0", STR, max_len=0), max_len=2), ""),
     "Inherit": (INH, INH_SRC),
     "DiscSub": (PA, INH_PLAIN_SRC),
+    # a subclass used on its own whose field is the (recursive) discriminated parent
+    "DiscSubRec": (
+        obj(
+            "RBranch2",
+            F("sub", opt(disc("type", (("RLeaf2", "RLeaf2"), ("RBranch2", "RBranch2")),
+                              obj("RLeaf2", F("v", INT, default=V("0")), bases="RBase2"), ref("RBranch2"), inherited="RBase2")), default=V("None")),
+            F("k", INT, default=V("0")),
+            bases="RBase2",
+        ),
+        '@discriminator("type")\n@dataclass\nclass RBase2:\n    pass\n',
+    ),
     "DiscSubHolder": (obj("DHold", F("c", PA), F("k", INT, default=V("0"))), INH_PLAIN_SRC),
     "DiscSub(fields)": (FA, INH_FIELDS_SRC),
     "ann(nt0)": (ann(NZ, max=5), ""),
